@@ -73,8 +73,7 @@ func (wf Operation) Signal(ctx context.Context) <-chan struct{} {
 // an operation which blocks until it's context is canceled or the
 // underlying operation returns.
 func (wf Operation) Launch(ctx context.Context) Operation {
-	sig := wf.Signal(ctx)
-	return func(ctx context.Context) { WaitChannel(sig) }
+	return WaitChannel(wf.Signal(ctx))
 }
 
 // Background launches the operation in a go routine. There is no panic-safety
